@@ -125,4 +125,5 @@ def one(case):
     return res
 
 
-main(lambda cases: [one(c) for c in cases])
+if __name__ == "__main__":
+    main(lambda cases: [one(c) for c in cases])
